@@ -35,14 +35,20 @@ def generate(rng, tier):
                                  families=["pair", "collinear", "planar", "asymmetric", "c2", "c3", "td", "chiral"], atols=[0.05, 0.1, 0.2, 0.02],
                                  width_mult=rng.choice([1.0, 1.3]), round_cell=3 if use_mic else None)
     replcheck.add_metadata(rng, spec)
-    P = np.array(spec["pattern"]["positions"], float).reshape(-1, 3)
     mode = rng.choice(["replace", "replace", "replace", "find"])
+    if mode == "replace" and not use_mic and rng.random() < 0.15:
+        # occurrences glued at shared atoms (C07's worlds): the overlap error, or its absence, must come through the command line too
+        from . import c07
+        spec = c07.generate(rng, tier)
+        spec["overlap_world"] = True
+    P = np.array(spec["pattern"]["positions"], float).reshape(-1, 3)
     opts = {"mode": mode}
     opts["atol"] = spec["atol"] if rng.random() < 0.85 else None       # None = leave the default (0.05)
     if opts["atol"] is None:
         spec["atol"] = 0.05
     if mode == "replace":
-        spec["replace"] = replcheck.gen_replacement(rng, spec["pattern"]["elements"], P, mode=rng.choice(["larger", "equal_subst", "smaller", "disjoint", "larger"]))
+        if not spec.get("overlap_world"):
+            spec["replace"] = replcheck.gen_replacement(rng, spec["pattern"]["elements"], P, mode=rng.choice(["larger", "equal_subst", "smaller", "disjoint", "larger"]))
         if not spec["replace"]["elements"]:
             spec["replace"] = replcheck.gen_replacement(rng, spec["pattern"]["elements"], P, mode="equal_subst")
         opts["fraction"] = rng.choice([None, 0.5, 0.75, 0.3, 0.0, 1.0])
@@ -243,8 +249,10 @@ def execute(spec, ctx):
             pre, found = _api_path(ctx, spec, paths, out_api, None)
         except Exception as e:
             if type(e).__name__ == "AtomsShouldNotBeDeletedTwice":
-                ctx.count("overlap_error_left_to_C07")
-                return
+                # same files, same options, same script of the random seam: the replacement refuses, so the command line cannot
+                # have replaced anything - yet it ended normally
+                raise Violation("cli:overlap-error-swallowed", "through the API the same replacement raises the overlap error; the command line ended normally%s"
+                                % (" and wrote an output file" if os.path.exists(out_cli) else ""), site=site)
             raise HarnessError("API path failed although the command line succeeded: %r" % (e,))
         if not os.path.exists(out_cli):
             raise Violation("cli:no-output-file", "the command line wrote no output file", site=site)
